@@ -80,6 +80,8 @@ FULL_ALPHABET: Tuple[Op, ...] = (
 # an already registered data file is registered again (a retried ingestion whose first attempt had landed):
 # the file is then listed by two manifests of the current snapshot
 REREGISTER_OPS: Tuple[Op, ...] = (("reregister_file", "newest"), ("reregister_file", "oldest"))
+# a pre-built data file is registered (append_files) under a spelling that is not the canonical table-relative one
+SPELLED_OPS: Tuple[Op, ...] = (("register_spelled", "./data/"), ("register_spelled", "data//"), ("register_spelled", "/data/./"))
 STEP_BACK_OPS: Tuple[Op, ...] = (("append_sb",), ("delete_file_sb", "newest"))
 AGE_LONG: Op = ("age", 11 * 24 * 3600)
 
@@ -214,7 +216,9 @@ def read_ts(view: Any, listing: Dict[str, float]) -> TS:
                 h.update(hashlib.md5(mraw).digest())
                 for e in _parsed("avro", mraw, mp):
                     fp = reader.norm(e["data_file"]["file_path"])
+                    raw_fp = e["data_file"]["file_path"]
                     sv.entries.append({"manifest": mp, "status": e["status"], "snapshot_id": e["snapshot_id"],
+                                       "spelling": "" if raw_fp.lstrip("/") == fp else raw_fp[:len(raw_fp) - len(fp.rsplit("/", 1)[-1])],
                                        "sequence_number": e.get("sequence_number"),
                                        "file_sequence_number": e.get("file_sequence_number"), "file_path": fp})
                     if fp not in seen:
@@ -525,7 +529,7 @@ def canon(v: Dict[str, Any], ts: TS, model: Model, txs: List[Dict[str, Any]], cl
         for e in s.entries:
             by_m.setdefault(e["manifest"], []).append(
                 (fi(e["file_path"]), e["status"], sid_(e["snapshot_id"]), e["file_sequence_number"],
-                 e["sequence_number"]))
+                 e["sequence_number"]) + ((e["spelling"],) if e.get("spelling") else ()))  # stored non-canonically
         for m in s.manifests:
             mans.append((mi(m), tuple(by_m.get(m, ()))))
         near = model.nearest_retained_ancestor(s.id, rset) if s.id in model.byid else "?"
@@ -697,6 +701,16 @@ def apply_op(table: Any, op: Op, pre: TS, model: Model, ctx: Ctx) -> Dict[str, A
                 ENV.clock = round(ENV.clock - STEP_BACK_S, 6)
             with table.new_transaction() as tx:
                 tx.delete_files([victim])
+        elif k == "register_spelled":
+            import dataclasses
+            import uuid as _uuid
+
+            name = f"pre_{_uuid.uuid4().hex[:10]}.parquet"
+            dfm = table.file_manager.data_file_manager
+            df = dfm.write_data_file(f"data/{name}", [ctx.next_row()], table._get_current_schema())
+            out["victim"] = f"data/{name}"
+            with table.new_transaction() as tx:
+                tx.append_files([dataclasses.replace(df, file_path=op[1] + name)])
         elif k == "reregister_file":
             live = _live_files(pre, model)
             victim = live[0] if op[1] == "oldest" else live[-1]
